@@ -34,7 +34,8 @@ VARIABLES conf, q, hist
 vars == <<conf, q, hist>>
 
 EmptyQ == [node |-> <<>>, nxt |-> <<>>, prv |-> <<>>,
-           lst |-> <<>>, headF |-> <<>>, byFile |-> <<>>, gseq |-> <<>>]
+           lst |-> <<>>, headF |-> <<>>, byFile |-> <<>>, gseq |-> <<>>,
+           aged |-> FALSE]    \* aged: time has passed, no file is younger than the last-file delay any more
   \* lst, headF : functions on the set of known groups ( <<>> = empty function)
   \* byFile     : function on the set of names present
 
@@ -239,7 +240,7 @@ PopScan(s, gi) ==
               ELSE r[1]
         next == r[2]
     IN IF next = Nil THEN PopScanNext(s1, g)
-       ELSE IF conf[g].delay /\ s1.nxt[next] = Nil /\ Young(s1.node[next].time)
+       ELSE IF conf[g].delay /\ s1.nxt[next] = Nil /\ Young(s1.node[next].time) /\ ~s1.aged
             THEN PopScanNext(s1, g)
             ELSE <<DelayGroup(s1, g), g, next>>
 
@@ -350,8 +351,10 @@ IsPop(H) == H # <<>> /\ H[Len(H)].op = "pop"
 IsChunk(H) == IsPop(H) /\ H[Len(H)].res.name # ""
 
 \* a group has a chunk ready before event k
+\* time passed (a "tick" event) before event k: every file has outlived the last-file delay
+Ticked(H, k) == \E j \in 1..(k - 1) : H[j].op = "tick"
 Withheld(H, k, g) ==
-  /\ conf[g].delay
+  /\ conf[g].delay /\ ~Ticked(H, k)
   /\ Cardinality(PendingIn(H, k, g)) = 1
   /\ \A ki \in PendingIn(H, k, g) : Young(FileOf(H, ki).time)
 Ready(H, k, g) == PendingIn(H, k, g) # {} /\ ~Withheld(H, k, g)
@@ -530,10 +533,18 @@ DoPop ==
      /\ hist' = Append(hist, [op |-> "pop", res |-> r[2]])
      /\ UNCHANGED conf
 
+\* the environment: time passes until no file is younger than the last-file delay (once per history)
+DoTick ==
+  /\ ~q.aged /\ hist # <<>> /\ \E g \in DOMAIN conf : conf[g].delay
+  /\ q' = [q EXCEPT !.aged = TRUE]
+  /\ hist' = Append(hist, [op |-> "tick"])
+  /\ UNCHANGED conf
+
 Next == /\ Len(hist) < MaxOps
         /\ \/ /\ Cardinality({ k \in 1..Len(hist) : hist[k].op = "push" }) < MaxPush
               /\ \E b \in DOMAIN Batches : DoPush(Batches[b])
            \/ DoPop
+           \/ DoTick
 
 Spec == Init /\ [][Next]_vars
 
